@@ -16,7 +16,7 @@ func init() {
 			"(R2) checkPersistSeqNo ⇔ seq ≤ persistSeqNo ∨ closed; (R3) SetPersistSeqNo leaves max(old,new), ignores 0, and is the only writer of the threshold; " +
 			"(R4) getMinSeqNo = 0 if every copy is absent, 0 if two present copies differ in vbUUID, else the minimum seqNo of the present copies — exhaustively for 0..4 copies over all orderings, vbUUID partitions and absent patterns; " +
 			"(R5) in the observe callback every state change and the dispatch are dominated by ¬closed ∧ same generation ∧ err==nil, IsOutdated ⇔ ¬absent ∧ (vbUUID≠ ∨ seqNo≠), the dispatched pair is (vbID, getMinSeqNo(vbID)) and is routed to the observer stored under that vbID; " +
-			"(R6) closing releases without delivering: Close sets closed, the listener is called iff ¬closed. " +
+			"(R6) closing releases without delivering: Close sets closed, the listener is called iff ¬closed; (R8) a cluster-map change discards every earlier report: reconfigure = generation++ ≺ reset ≺ markAbsentInstances ≺ go startObserve(new generation) on every path, and reset installs a fresh table of all-zero entries unconditionally. " +
 			"Not decided: wake-up latency of the polling loop, correctness of OBSERVE_SEQNO, cluster-map bookkeeping beyond these checks.",
 		Assumptions: []string{"OBSERVE_SEQNO reports what each copy persisted", "one goroutine per vBucket stream calls the handlers"},
 		Rules: []RuleDef{
@@ -26,6 +26,7 @@ func init() {
 			{ID: "C07.R4", Text: "getMinSeqNo: 0 if all copies absent; 0 if two present copies differ in vbUUID; else min seqNo of the present copies (0..4 copies, exhaustive)", Run: c07r4},
 			{ID: "C07.R5", Text: "observe callback: replica-table stores and dispatch dominated by ¬closed ∧ generation unchanged ∧ err==nil; IsOutdated ⇔ ¬absent ∧ (vbUUID≠ ∨ seqNo≠); dispatch (vbID, getMinSeqNo(vbID)) routed to observers[vbID].SetPersistSeqNo", Run: c07r5},
 			{ID: "C07.R7", Text: "cluster-map generations: a snapshot is newer ⇔ (epoch, rev) is lexicographically greater; configWatch installs it and reconfigures ⇔ no snapshot yet ∨ newer, only when the snapshot could be read", Run: c07r7},
+			{ID: "C07.R8", Text: "a new cluster map starts from an empty report table: reconfigure bumps the generation, then resets, then marks unassigned copies absent, then starts the observe round of the new generation; reset replaces the whole table by fresh all-zero entries for every vBucket and re-arms the first-round counter on every path", Run: c07r8},
 			{ID: "C07.R6", Text: "close releases without delivering: observer.Close sets closed; listener called ⇔ ¬closed", Run: c07r6},
 		},
 	})
@@ -724,4 +725,110 @@ func replicaStateType(w *World) *types.Named {
 		return found[0]
 	}
 	return nil
+}
+
+// c07r8: reports recorded under an older cluster map say nothing about the copies the new map lists (a replica slot may
+// have been unassigned, or re-homed to a node that lags). The threshold is only safe if the table the minimum is taken
+// over starts empty for every generation.
+func c07r8(c *Ctx, id string) {
+	w := c.W
+	rc := w.Method("couchbase", "rollbackMitigation", "reconfigure")
+	rs := w.Method("couchbase", "rollbackMitigation", "reset")
+	ma := w.Method("couchbase", "rollbackMitigation", "markAbsentInstances")
+	so := w.Method("couchbase", "rollbackMitigation", "startObserve")
+	c.need(rc != nil && rs != nil && ma != nil && so != nil, id, "rollbackMitigation.reconfigure / reset / markAbsentInstances / startObserve")
+	c.see(rc)
+	c.see(rs)
+	gen := w.Field("couchbase", "rollbackMitigation", "activeGroupID")
+	tab := w.Field("couchbase", "rollbackMitigation", "persistedSeqNos")
+	c.need(gen != nil && tab != nil, id, "rollbackMitigation.activeGroupID / persistedSeqNos")
+	seqs, complete := pathEvents(rc, func(in ssa.Instruction) (string, *ssa.Function) {
+		if st, ok := in.(*ssa.Store); ok && fieldOfAddr(st.Addr) == gen {
+			return "gen++", nil
+		}
+		if g, ok := in.(*ssa.Go); ok && g.Common().StaticCallee() == so {
+			if strings.HasSuffix(w.Origin(g.Common().Args[len(g.Common().Args)-1]), "."+gen.Name()) || strings.Contains(w.Origin(g.Common().Args[len(g.Common().Args)-1]), gen.Name()) {
+				return "go-observe(gen)", nil
+			}
+			return "go-observe(?)", nil
+		}
+		if cc := callOf(in); cc != nil {
+			switch cc.StaticCallee() {
+			case rs:
+				return "reset", nil
+			case ma:
+				return "mark-absent", nil
+			}
+		}
+		return "", nil
+	}, 0)
+	ok := complete && len(seqs) > 0
+	for _, s := range seqs {
+		if strings.HasSuffix(s, "!panic") {
+			continue
+		}
+		if s != "gen++ reset mark-absent go-observe(gen)" {
+			ok = false
+		}
+	}
+	c.Check(ok, id, "reconfigure-order", rc.Pos(), fmt.Sprintf("every path: generation++ ≺ reset ≺ mark-absent ≺ go startObserve(generation) %v", seqs), fmt.Sprintf("a path through reconfigure does not start the new generation from an empty table: %v", seqs))
+	// reset: unconditional fresh table
+	seqs, complete = pathEvents(rs, func(in ssa.Instruction) (string, *ssa.Function) {
+		if st, ok := in.(*ssa.Store); ok && fieldOfAddr(st.Addr) == tab {
+			if freshMapIn(st.Val, rs) {
+				return "table←fresh", nil
+			}
+			return "table←" + w.Origin(st.Val), nil
+		}
+		if cc := callOf(in); cc != nil {
+			if k, m := atomicMethod(cc.StaticCallee()); k != "" && (m == "Swap" || m == "Store") {
+				return "count←", nil
+			}
+			if m, _ := csmapMethod(cc); m == "Store" {
+				return "entry", nil
+			}
+		}
+		return "", nil
+	}, 0)
+	ok = complete && len(seqs) > 0
+	for _, s := range seqs {
+		if strings.HasSuffix(s, "!panic") {
+			continue
+		}
+		fs := strings.Fields(s)
+		if len(fs) < 2 || fs[0] != "table←fresh" || fs[len(fs)-1] != "count←" {
+			ok = false
+			continue
+		}
+		for _, e := range fs[1 : len(fs)-1] {
+			if e != "entry" {
+				ok = false
+			}
+		}
+	}
+	c.Check(ok, id, "reset-unconditional", rs.Pos(), fmt.Sprintf("every non-panicking path installs a fresh table, fills it and re-arms the counter %v", seqs), fmt.Sprintf("reset keeps (part of) the previous generation's reports on some path: %v", seqs))
+	// entries are fresh all-zero records
+	rec := w.NamedType("couchbase", "vbUUIDAndSeqNo")
+	nRec, badRec := 0, 0
+	if rec != nil {
+		allInstrs(rs, func(in ssa.Instruction) {
+			st, isSt := in.(*ssa.Store)
+			if !isSt {
+				return
+			}
+			if p, isP := st.Val.Type().(*types.Pointer); !isP || !types.Identical(p.Elem(), rec) {
+				return
+			}
+			nRec++
+			a := asAlloc(st.Val)
+			if a == nil {
+				badRec++
+				return
+			}
+			if t, okT := allocTable(a); !okT || len(t) != 0 {
+				badRec++
+			}
+		})
+	}
+	c.Check(nRec >= 1 && badRec == 0, id, "reset-entries", rs.Pos(), "every copy's record is a fresh all-zero entry (not absent, no report)", fmt.Sprintf("%d of %d records stored by reset are not fresh all-zero entries", badRec, nRec))
 }
